@@ -83,6 +83,8 @@ def gen_cases(chk, thorough):
     cases = []
     corpus = [c["input"] for c in CORPUS]
     cases += [("corpus", t) for t in corpus]
+    lay = gen_lex.literal_layouts()
+    cases += [("layout", t) for t in (lay if thorough else rng.sample(lay, 500))]
     prs = gen_lex.pairs(True)
     if not thorough:
         prs = rng.sample(prs, min(len(prs), 6000))
@@ -112,6 +114,8 @@ CORPUS = [
     {"input": '"a\nb" x', "note": "column after multi-line string (fixed)"},
     {"input": 'x "abc', "note": "unterminated string returned as complete token (fixed)"},
     {"input": 'a\r\n    b\r\n', "note": "CRLF"},
+    {"input": '"your name is {you\\_name}"\n', "note": "character after a backslash dropped from an interpolated expression (fixed fc8db46)"},
+    {"input": 'print("{f(\\y => y + 1)} {z}")\n', "note": "anonymous function inside an interpolation (fixed fc8db46)"},
 ]
 
 
